@@ -332,3 +332,67 @@ func VerifC11Internal() {
 	}
 	rt.Reach("c11.internal")
 }
+
+// verifProbeWriter is the destination of a snapshot/export; on every write it
+// probes what other lock owners could do at that moment.
+type verifProbeWriter struct {
+	probe  func()
+	writes int
+}
+
+func (p *verifProbeWriter) Write(b []byte) (int, error) {
+	p.writes++
+	p.probe()
+	return len(b), nil
+}
+
+// VerifC11SnapshotExcludes: while a snapshot or export is copying pages, no
+// writer - LiteFS's internal write lock, a halt, an application going
+// EXCLUSIVE (rollback mode) or checkpointing (WAL mode) - can get in.
+func VerifC11SnapshotExcludes() {
+	ctx := context.Background()
+	wal := rt.Choose("wal.mode", 2) == 1
+	export := rt.Choose("export", 2) == 1
+	w := verifNewStore(true)
+	w.verifOpenDB(verifImage("img0", 1+rt.Choose("n0", 2), wal), 41)
+	db := w.db
+	probes := 0
+	pw := &verifProbeWriter{}
+	pw.probe = func() {
+		probes++
+		gs := db.TryAcquireWriteLock()
+		rt.Check(gs == nil, "LiteFS's internal write lock is not available while a snapshot is copying pages")
+		if gs != nil {
+			gs.Unlock()
+		}
+		if !wal {
+			// an application connection may reserve, but cannot reach EXCLUSIVE while the snapshot reads
+			rt.Check(db.TryRLocks(ctx, 9, []LockType{LockTypeShared}), "another reader is admitted beside the snapshot")
+			ok, _ := db.TryLocks(ctx, 9, []LockType{LockTypeReserved})
+			rt.Check(ok, "an application may take RESERVED beside readers")
+			ok, _ = db.TryLocks(ctx, 9, []LockType{LockTypePending})
+			okx, _ := db.TryLocks(ctx, 9, []LockType{LockTypeShared})
+			rt.Check(!okx, "an application cannot reach EXCLUSIVE (and so cannot change pages) while the snapshot reads")
+			_ = ok
+			db.GuardSet(9).Unlock()
+		} else {
+			// a checkpointer needs READ0 exclusively to backfill pages the snapshot may still read from the file
+			ok, _ := db.TryLocks(ctx, 9, []LockType{LockTypeCkpt})
+			okr, _ := db.TryLocks(ctx, 9, []LockType{LockTypeRead0})
+			rt.Check(!(ok && okr), "an application cannot checkpoint (CKPT + exclusive READ0) while the snapshot reads")
+			db.GuardSet(9).Unlock()
+		}
+	}
+	var err error
+	if export {
+		_, err = db.Export(ctx, pw)
+	} else {
+		_, _, err = db.WriteSnapshotTo(ctx, pw)
+	}
+	rt.Check(err == nil, "undisturbed snapshot succeeds")
+	rt.Check(probes > 0, "harness: the snapshot wrote through the probe")
+	for _, t := range verifAllLocks {
+		rt.Check(verifMutex(db, t).State() == RWMutexStateUnlocked, "all locks released afterwards")
+	}
+	rt.Reach("c11.snapshot.excludes")
+}
